@@ -117,7 +117,8 @@ def cases(draw, tier):
         kinds = [draw(st.sampled_from(["sqshift", "fn:exp", "fn:cosh", "pow2"])) for _ in range(nk)]
     point = {nm: draw(st.integers(30, 90)) / 100.0 for nm in NAMES}
     return {"regime": regime, "op": op, "n": n, "thr": thr, "T": T, "kinds": kinds, "convex": convex, "point": point,
-            "wrt": draw(st.sampled_from(["x[0]", "x[1]", "x[3]", "y", "A[0,1]"])), "wrt_fresh": draw(st.integers(0, 3)) == 0}
+            "wrt": draw(st.sampled_from(["x[0]", "x[1]", "x[3]", "y", "A[0,1]"])), "wrt_fresh": draw(st.integers(0, 3)) == 0,
+            "prequery": draw(st.booleans())}
 
 
 def strategy(tier):
@@ -157,7 +158,16 @@ def _run_in_big_thread(fn):
 
 
 def check(case):
-    return _run_in_big_thread(lambda: _check(case))
+    """dedicated thread (depth counted from 0) under Python's DEFAULT recursion limit: Hypothesis raises the limit
+    around a test body, which would hide a RecursionError a user would see"""
+    def body():
+        old = sys.getrecursionlimit()
+        sys.setrecursionlimit(1000)
+        try:
+            return _check(case)
+        finally:
+            sys.setrecursionlimit(old)
+    return _run_in_big_thread(body)
 
 
 def _deep_eval(expr, point):
@@ -167,7 +177,7 @@ def _deep_eval(expr, point):
     try:
         return to_float(expr.evaluate(dict(point)))
     finally:
-        sys.setrecursionlimit(old)
+        sys.setrecursionlimit(old)  # back to the default limit of this check
 
 
 def _check(case):
@@ -217,7 +227,12 @@ def _check(case):
             return err
         if gotc != sorted(set(want_vars) | {"y"}, key=natural_key):
             return Result.violation("variables-differ", f"constraint position: {gotc} vs {sorted(set(want_vars) | {'y'}, key=natural_key)}; {desc}", classes)
-        # 2. degree
+        # 2. degree (optionally after every term was classified on its own: cache state)
+        if case.get("prequery"):
+            classes.append("prequery")
+            for t_ in getattr(bL, "last_chain_terms", []):
+                if hasattr(t_, "degree"):
+                    t_.degree
         dL, err = guarded("degree", lambda: (eL.degree, eL.is_linear()))
         if err:
             return err
